@@ -899,6 +899,15 @@ pub fn gen_aq() -> BoxedStrategy<AQ> {
         3 => ([0u8..6, 0u8..6], [join_on(), join_on()], prop::option::weighted(0.3, gen_ab())).prop_map(|(kinds, ons, pred)| AQ::Join3 { kinds, ons, pred }),
         // composite upper key that extends the lower join's key: a.x = b.m, then a.x = c.p AND a.y = c.q
         2 => ([0u8..6, 0u8..6], any::<u16>(), any::<u16>(), any::<u16>(), any::<u16>(), any::<u16>()).prop_map(|(kinds, x, m, p, y, q)| AQ::Join3 { kinds, ons: [AB::ColEq(x, m), AB::And(Box::new(AB::ColEq(x, p)), Box::new(AB::ColEq(y, q)))], pred: None }),
+        // an outer join below, and the upper join on the lower join's first left key (a plan may be tempted to
+        // take the lower join's output as already ordered by it)
+        2 => ([4u8..6, 0u8..6], any::<u16>(), any::<u16>(), any::<u16>(), prop::option::weighted(0.5, (any::<u16>(), any::<u16>()))).prop_map(|(kinds, x, m, p, second)| {
+            let lower = match second {
+                Some((y, q)) => AB::And(Box::new(AB::ColEq(x, m)), Box::new(AB::ColEq(y, q))),
+                None => AB::ColEq(x, m),
+            };
+            AQ::Join3 { kinds, ons: [lower, AB::ColEq(x, p)], pred: None }
+        }),
         // (UNION is not part of the grammar the parser accepts: the model keeps it, the generator does not emit it)
         3 => (0u8..3, 0u8..5, prop::collection::vec((0u8..6, any::<u16>()), 1..3), any::<bool>(), any::<bool>()).prop_map(|(t, group, aggs, desc, agg_first)| AQ::AggOrdered { t, group, aggs, desc, agg_first }),
         1 => (0u8..3, prop::collection::vec(0u8..5, 1..4), prop::collection::vec(prop::collection::vec(prop::option::weighted(0.85, 0u8..8), 4), 1..4)).prop_map(|(t, cols, rows)| AQ::Insert { t, cols, rows }),
